@@ -3559,7 +3559,7 @@ class UnaryMinusSimplifyMacro(Macro):
         if not lhs.is_uminus():
             raise VeriTException("minus_simplify", "lhs should be an uminus term")
         lhs_neg_tm = lhs.arg
-        if lhs_neg_tm.is_minus():
+        if lhs_neg_tm.is_uminus():
             if lhs_neg_tm.arg == rhs:
                 return Thm(goal)
             else:
